@@ -1,11 +1,81 @@
 (* C19 — Wire and storage decoding is total and round-trips.
-   ONLY property statements; proofs are in Proofs/C19.v. *)
+   ONLY property statements; proofs are in Proofs/C19.v.  The model (Model/C19.v) has two layers:
+   the protobuf wire format as read by google.golang.org/protobuf ([tokenize] / [ser]) and, per
+   message type, a schema with the transcribed glue of the hand-written Go Unmarshal ([decode] /
+   [encode]); [parse] is the oracle for the key / point parsers (an arbitrary function).
+   Well-formedness predicates (Proofs/C19.v): [wf_tok] = field number in [1, 2^29-1], varints
+   below 2^64, fixed values of 4 / 8 bytes, payload lengths below 2^64; [wf_schema] = distinct
+   field numbers in range; [wf_value parse s v] = one value per schema field with: member
+   indexes <= 255, uint32 / uint64 in range, byte strings that pass the field's check and are
+   fixpoints of the field's parser ([check parse c b = Some b]), valid UTF-8 strings, map keys
+   <= 255 strictly increasing, all lengths below 2^64. *)
 From Coq Require Import ZArith NArith List Bool.
 From KV Require Import Common.Verdict Model.C19 Proofs.C19.
 Import ListNotations.
 Open Scope N_scope.
 
+(* ---- the wire layer: what the writer produces, the reader reads back *)
+Theorem varint_roundtrip :
+  forall n r, n < two64 -> dec_varint (enc_varint n ++ r) = Some (n, r).
+Proof. exact Proofs.C19.dec_enc_varint. Qed.
+Print Assumptions varint_roundtrip.
+
+Theorem wire_roundtrip :
+  forall ts : list token, Forall wf_tok ts -> tokenize (ser ts) = Some ts.
+Proof. exact Proofs.C19.tokenize_ser. Qed.
+Print Assumptions wire_roundtrip.
+
+Theorem big_endian_roundtrip : forall n, be_val (be_bytes n) = n.
+Proof. exact Proofs.C19.be_val_be_bytes. Qed.
+Print Assumptions big_endian_roundtrip.
+
+(* ---- round trip, generically over message schemas and over every key parser: decoding the
+   encoding of a well-formed value gives back that value *)
+Theorem roundtrip :
+  forall (parse : N -> list N -> option (list N)) (s : mschema) (v : list fval),
+    wf_schema s -> wf_value parse s v -> decode parse s (encode s v) = Ok v.
+Proof. exact Proofs.C19.roundtrip. Qed.
+Print Assumptions roundtrip.
+
+(* ---- totality, generically: a decoder whose glue never dereferences an absent sub-message
+   returns a value or an error on EVERY byte string *)
+Theorem decode_total :
+  forall (parse : N -> list N -> option (list N)) (s : mschema) (bytes : list N),
+    forallb no_panic_field (ms_fields s) = true -> decode parse s bytes <> Panic.
+Proof. exact Proofs.C19.decode_total. Qed.
+Print Assumptions decode_total.
+
+(* ---- the modelled keep-core decoders (including the repaired tbtc signer) satisfy the
+   premises of both theorems *)
+Theorem modelled_decoders_total :
+  forall parse s bytes, In s all_schemas -> decode parse s bytes <> Panic.
+Proof. exact Proofs.C19.modelled_decoders_total. Qed.
+Print Assumptions modelled_decoders_total.
+
+Theorem modelled_decoders_roundtrip :
+  forall parse s v, In s all_schemas -> wf_value parse s v -> decode parse s (encode s v) = Ok v.
+Proof. exact Proofs.C19.modelled_decoders_roundtrip. Qed.
+Print Assumptions modelled_decoders_roundtrip.
+
+(* ---- the defect that the fix: commit repaired: with the dereference of the absent Wallet the
+   empty byte string crashes the decoder, for every key parser *)
 Theorem signer_before_fix_panics :
   forall parse, decode parse S_tbtc_signer_before_fix [] = Panic.
 Proof. exact Proofs.C19.signer_before_fix_panics. Qed.
 Print Assumptions signer_before_fix_panics.
+
+(* ---- the executable form used by the correspondence check is sound and holds of the model *)
+Theorem spec_gen_sound :
+  forall k o valid, spec_gen k o valid = true ->
+    o <> OPanic /\ (o = OOk -> valid = true) /\ (k = KRoundTrip -> o = OOk).
+Proof. exact Proofs.C19.spec_gen_sound. Qed.
+Print Assumptions spec_gen_sound.
+
+Theorem model_outputs_pass_spec :
+  forall parse s, In s all_schemas ->
+    (forall bytes, spec_gen KCorrupt (class_of (decode parse s bytes)) true = true /\
+                   spec_gen KRandom (class_of (decode parse s bytes)) true = true) /\
+    (forall v, wf_value parse s v ->
+               spec_gen KRoundTrip (class_of (decode parse s (encode s v))) true = true).
+Proof. exact Proofs.C19.model_outputs_pass_spec. Qed.
+Print Assumptions model_outputs_pass_spec.
